@@ -158,7 +158,7 @@ def history_case(draw):
     base = draw(random_case())
     calls = [dict(base, kind="base")]
     for _ in range(draw(st.integers(1, 3))):
-        kind = draw(st.sampled_from(["fragment", "fragment", "strand", "start", "whole"]))
+        kind = draw(st.sampled_from(["fragment", "fragment", "strand", "start", "whole", "other-maps"]))
         prev = calls[-1]
         c = dict(prev, kind=kind)
         if kind == "fragment":
@@ -174,6 +174,11 @@ def history_case(draw):
         elif kind == "start":
             d = draw(st.integers(-3, 3)) * max(1, base["maxd"])
             c.update(start=prev["start"] + d, end=prev["end"] + d)
+        elif kind == "other-maps":
+            # another reference / query pair carrying the same molecule ids (the statement is per call: the labels returned
+            # must be those of the maps passed in this call)
+            o = draw(random_case())
+            c = dict(o, kind=kind)
         else:
             c.update(q=base["q"], shift=base["shift"])
         calls.append(c)
